@@ -25,7 +25,8 @@ type stmtSpec struct {
 
 type methodSpec struct {
 	name    string
-	role    string // plain | getter | setter
+	role    string // plain | getter | setter (getter/setter: trivial field accessor)
+	accRole string // plain method carrying an accessor name: getter | setter ("" otherwise)
 	form    string
 	mods    string
 	ret     string
@@ -344,6 +345,9 @@ func (rd *renderer) renderMethod(w *writer, ms *methodSpec, ind string) Method {
 		w.add(ind + " */")
 	}
 	m := Method{Name: ms.name, Form: ms.form, Role: ms.role, Params: ms.params, Varargs: ms.varargs, Generic: ms.generic, HasBody: ms.hasBody()}
+	if ms.role == "plain" && ms.accRole != "" {
+		m.Role, m.AccessorNamed = ms.accRole, true
+	}
 	head := ms.mods
 	if head != "" {
 		head += " "
